@@ -99,6 +99,22 @@ class S:
         self.leaves[name] = l
         return l
 
+    def fresh_int(self, prefix="v"):
+        return fresh(prefix, z3.IntSort())
+
+    def fresh_real(self, prefix="v"):
+        return fresh(prefix, z3.RealSort())
+
+    def fresh_symlist(self, length, width=None, dtype="int", prefix="lst"):
+        return SymList(length, width, dtype, name=prefix)
+
+    def fresh_array(self, shape, dtype="real", prefix="arr"):
+        return SymArr(shape, dtype, name=prefix)
+
+    def singleton(self, name, obj):
+        self.ex.globals_heap[name] = obj
+        return obj
+
     def obj(self, cls, label=None, **fields):
         if isinstance(cls, str) and "::" in cls:
             cls = self.ex.repo.cls(cls)
@@ -285,6 +301,9 @@ def spec_call(ex, e):
         a = ex.truth(ex.eval(e.args[0]))
         if a is False:
             return True, True
+        if is_z3(a) and not ex.feasible(a):
+            # antecedent excluded by the path condition: the consequent may not even be evaluable
+            return True, True
         b = ex.truth(ex.eval(e.args[1]))
         return True, implies(a, b)
     if name == "iff":
@@ -397,8 +416,10 @@ def verify_function(repo, registry, qualname, max_paths=400, post_hooks=()):
     """symbolically executes every path of the function under its `requires`, collecting obligations:
     internal (bounds, divisors, callee preconditions, loop invariants) and the contract's ensures/raises."""
     c = registry.contract_for(qualname)
-    finfo = repo.function(qualname)
+    base_q = qualname.split("#")[0]
+    finfo = repo.function(base_q)
     rep = FunctionReport(finfo)
+    rep.qualname = qualname
     work = [[]]
     seen_notes = set()
     while work:
@@ -409,7 +430,8 @@ def verify_function(repo, registry, qualname, max_paths=400, post_hooks=()):
             break
         V._counter = __import__("itertools").count()     # deterministic symbol names per path
         ex = Exec(repo, registry, trace)
-        registry.under_proof = qualname
+        ex.proof_label = qualname
+        registry.under_proof = base_q
         sfac = S(ex)
         try:
             args = c.setup(sfac)
@@ -440,37 +462,38 @@ def verify_function(repo, registry, qualname, max_paths=400, post_hooks=()):
             except PathEnd:
                 outcome = ("pathend", None)
             ex.frames.append(Frame(finfo, env, finfo.module))
+            tag = qualname.split("::")[1]
             if outcome[0] == "return":
                 cenv = dict(env)
                 cenv["result"] = outcome[1]
                 for (nm, cl) in c.named(c.ensures, "ensures"):
                     f = ClauseExec(ex, dict(cenv), old_env=old, module=finfo.module).run(cl)
                     f = V.z3bool(f) if is_z3(f) else bool(f)
-                    ex.oblige("post:%s:%s" % (finfo.name, nm), f, "postcondition")
+                    ex.oblige("post:%s:%s" % (tag, nm), f, "postcondition")
                 for exc, rs in c.raises.items():
                     if rs.get("when") is not None and rs.get("iff", True):
                         w = ClauseExec(ex, dict(old), module=finfo.module).run(rs["when"])
                         w = V.z3bool(w) if is_z3(w) else bool(w)
-                        ex.oblige("no-raise-unless:%s:%s" % (finfo.name, exc), bnot(w), "exceptional-postcondition")
+                        ex.oblige("no-raise-unless:%s:%s" % (tag, exc), bnot(w), "exceptional-postcondition")
                 for h in post_hooks:
                     h(ex, cenv, old, outcome)
             elif outcome[0] == "raise":
                 r = outcome[1]
                 rs = c.raises.get(r.exc_type)
                 if rs is None:
-                    ex.oblige("unexpected-raise:%s:%s" % (finfo.name, r.exc_type), False,
+                    ex.oblige("unexpected-raise:%s:%s" % (tag, r.exc_type), False,
                               "exceptional-postcondition", r.line)
                 else:
                     cenv = dict(env)
                     if rs.get("when") is not None:
                         w = ClauseExec(ex, dict(old), module=finfo.module).run(rs["when"])
                         w = V.z3bool(w) if is_z3(w) else bool(w)
-                        ex.oblige("raise-only-when:%s:%s" % (finfo.name, r.exc_type), w,
+                        ex.oblige("raise-only-when:%s:%s" % (tag, r.exc_type), w,
                                   "exceptional-postcondition", r.line)
                     for k, cl in enumerate(rs.get("ensures", [])):
                         f = ClauseExec(ex, dict(cenv), old_env=old, module=finfo.module).run(cl)
                         f = V.z3bool(f) if is_z3(f) else bool(f)
-                        ex.oblige("raise-post:%s:%s:%d" % (finfo.name, r.exc_type, k), f,
+                        ex.oblige("raise-post:%s:%s:%d" % (tag, r.exc_type, k), f,
                                   "exceptional-postcondition", r.line)
             rep.path_summaries.append({"decisions": list(ex.decisions), "outcome": outcome[0]})
         except Infeasible:
